@@ -226,6 +226,9 @@ class _RealFinder:
     def _find_primary_start(self, offset):
         if offset >= len(self.code):
             offset = len(self.code) - 1
+        if offset >= 2 and self.code[offset - 2 : offset + 1] == "...":
+            # an Ellipsis literal is an atom of its own
+            return offset - 2
         if self.code[offset] != ".":
             offset = self._find_primary_without_dot_start(offset)
         else:
